@@ -37,6 +37,11 @@ def f_cos(t, w=1.0):
     return np.cos(w * t)
 
 
+def _c10_pulse(t, tc):
+    """Gaussian pulse of area pi/2 and width 0.002 centred at tc"""
+    return (np.pi / 2) / (0.002 * np.sqrt(2 * np.pi)) * np.exp(-0.5 * ((t - tc) / 0.002) ** 2)
+
+
 def run(tier, seed, replay):
     rep = core.Report(PID, tier, seed)
     rep.rule = ("tableaux: every registered explicit method; single steps: methods x 40 random dyadic (lambda, dt, y); routes: random 2-4 level systems x "
@@ -496,6 +501,57 @@ def run(tier, seed, replay):
                 if err_ > 2e-5 * abs(scale_):
                     v(f"exact:unnormalised:{method}", f"sesolve({method}) of a ket of norm {abs(scale_):g} differs from exp(-iHt) psi0 by {err_:.2e}", {"method": method, "scale": str(scale_), "dim": d})
                     break
+        if si == 0:
+            # a pulse that only max_step lets the integrator see, starting from a state on which the generator vanishes at
+            # t0 (pulse-only Hamiltonian): every method gives the rotation by the pulse area
+            from scipy.special import erf as _erf
+            for tc_ in (0.19, 0.043):
+                area_ = 0.5 * (np.pi / 2) * 0.5 * (_erf((0.5 - tc_) / (0.002 * np.sqrt(2))) - _erf((0 - tc_) / (0.002 * np.sqrt(2))))      # theta(0.5) / 2
+                Hpu_ = qutip.QobjEvo([[qutip.sigmax() / 2, _c10_pulse]], args={"tc": tc_})
+                for method in ("adams", "bdf", "lsoda", "vern7", "vern9"):
+                    try:
+                        with warnings.catch_warnings():
+                            warnings.simplefilter("ignore")
+                            with core.time_limit(240):
+                                gp_ = qutip.sesolve(Hpu_, qutip.basis(2, 0), np.linspace(0, 0.5, 6), options={"method": method, "max_step": 0.0005, "progress_bar": "", "atol": 1e-8, "rtol": 1e-6, "nsteps": 100000}).states[-1].full().ravel()
+                        rep.evaluations += 1
+                        rep.count("pulse-from-rest/" + method)
+                        wantp_ = np.array([np.cos(area_), -1j * np.sin(area_)])
+                        if np.abs(gp_ - wantp_).max() > 1e-4:
+                            v(f"pulse-from-rest:{method}", f"sesolve({method}, max_step=0.0005) from a state on which the generator vanishes at t0 misses a Gaussian pulse of width 0.002 at t={tc_}: final state {gp_.tolist()}, rotation by the pulse area gives {wantp_.tolist()}", {"method": method, "t_c": tc_})
+                    except core.CaseTimeout:
+                        raise
+                    except Exception as e:
+                        if type(e).__name__ != "IntegratorException":
+                            v(f"raises:pulse-from-rest:{method}", f"{type(e).__name__}: {e}"[:200], {"method": method})
+            # a result is a value: carrying the solver on with step() after run() does not change the final state an earlier
+            # result holds (states not stored, output not normalised)
+            Hc2_ = 0.5 * qutip.sigmaz() + 0.3 * qutip.sigmax()
+            k2_ = 1.7 * qutip.Qobj(np.array([[0.6], [0.8j]]))
+            for method in se_methods:
+                o2_ = {"method": method, "store_states": False, "store_final_state": True, "normalize_output": False, "progress_bar": ""}
+                if method not in ("diag", "krylov"):
+                    o2_.update(atol=1e-10, rtol=1e-9, nsteps=200000)
+                try:
+                    with warnings.catch_warnings():
+                        warnings.simplefilter("ignore")
+                        with core.time_limit(120):
+                            s2_ = qutip.SESolver(Hc2_, options=o2_)
+                            r2_ = s2_.run(k2_, [0.0, 0.4, 0.9])
+                            kept_ = r2_.final_state.full().copy()
+                            s2_.step(1.6)
+                            s2_.step(2.3)
+                            after_ = r2_.final_state.full()
+                    rep.evaluations += 1
+                    rep.count("final-state-after-step/" + method)
+                    want2_ = sla.expm(-1j * Hc2_.full() * 0.9) @ k2_.full()
+                    if np.abs(after_ - kept_).max() > 0 or np.abs(kept_ - want2_).max() > 2e-5:
+                        v(f"final-state-changes:{method}", f"SESolver({method}): the final state held by the result of run() {'changes when the solver is carried on with step()' if np.abs(after_ - kept_).max() > 0 else 'differs from exp(-iHt) psi0'} (by {max(np.abs(after_ - kept_).max(), np.abs(kept_ - want2_).max()):.2e})", {"method": method})
+                except core.CaseTimeout:
+                    raise
+                except Exception as e:
+                    if type(e).__name__ != "IntegratorException":
+                        v(f"raises:final-state-after-step:{method}", f"{type(e).__name__}: {e}"[:200], {"method": method})
         # Krylov: a Hamiltonian whose Krylov space closes after exactly krylov_dim vectors (rank-one H, krylov_dim = 2):
         # the projected evolution is exact, nothing has to be refused
         if si == 0:
